@@ -708,6 +708,84 @@ Definition h_accept (e : ed) (hold inf : bool) (err : Z) (max_entries : Z) (mem_
     end
 .
 
+(* ---- Sources.Write over all bound sources (C08): one iteration per source *)
+Definition src_store (mem_kind : bool) (l : list Z) : list Z := if mem_kind then l else trim_space l.
+
+Definition source_write (mem_kind : bool) (max_entries : Z) (l : list Z) (entries : list (list Z)) : list (list Z) :=
+  if (max_entries =? 0) || ((0 <? max_entries) && (max_entries <=? zlen entries)) then entries
+  else
+    let last := if mem_kind && (zlen entries =? 0) then Some []
+                else if zlen entries =? 0 then None else Some (nth (Z.to_nat (zlen entries - 1)) entries []) in
+    match last with
+    | Some la => if negb (eqlZ la []) && eqlZ (trim_space la) (trim_space l) then entries
+                 else entries ++ [src_store mem_kind l]
+    | None => entries ++ [src_store mem_kind l]
+    end.
+
+(* Accept(hold, infer, err) as far as the sources are concerned *)
+Definition sources_accept (err : Z) (inf : bool) (max_entries : Z) (l : list Z)
+           (srcs : list (bool * list (list Z))) : list (bool * list (list Z)) :=
+  if negb (err =? 0) then srcs
+  else if inf then srcs
+  else match trim_space l with
+       | [] => srcs
+       | _ => map (fun s => (fst s, source_write (fst s) max_entries l (snd s))) srcs
+       end.
+
+(* ---- history search (C09): Sources.getLine with no line given, match, InsertMatch *)
+
+(* the text searched for: the last saved state of the edit buffer, up to its cursor *)
+Definition h_search_text (e : ed) : list Z * Z :=
+  match rev (u_items (lh_get (lines e) (-1))) with
+  | [] => ([], 0)
+  | (l, p) :: _ =>
+    (* cur.Set(undo.pos) on the new line *)
+    let p := if p <? 0 then 0 else if zlen l <? p then zlen l else p in
+    (l, p)
+  end.
+
+Fixpoint is_substring (needle hay : list Z) : bool :=
+  has_prefix needle hay || match hay with [] => false | _ :: r => is_substring needle r end.
+
+(* the loop of match(): position of the first matching entry in the walking direction *)
+Fixpoint match_go (fuel : nat) (h : list (list Z)) (pos : Z) (fwd regex : bool) (cline : list Z) : option (list Z * Z) :=
+  match fuel with
+  | O => None
+  | S f =>
+    if (if fwd then pos <? zlen h else 0 <? pos) then
+      let pos := if fwd then pos + 1 else pos - 1 in
+      if (pos <? 0) || (zlen h <=? pos) then None        (* GetLine error ends the search *)
+      else
+        let hl := utf8_encode (nth (Z.to_nat pos) h []) in
+        let ok := if regex then is_substring cline hl
+                  else negb ((zlen hl <? zlen cline) || (negb (zlen cline =? 0) && negb (has_prefix cline hl))) in
+        if ok then Some (nth (Z.to_nat pos) h [], pos) else match_go f h pos fwd regex cline
+    else None
+  end.
+
+(* InsertMatch(nil, nil, usePos=true, fwd, regexp) *)
+Definition h_insert_match (e : ed) (fwd regex : bool) : res ed :=
+  do e <- (if hpos e =? -1 then
+             let sk := uskip e in
+             do e1 <- h_save (set_undo e (lines e) false (undoing e));
+             Ok (set_undo e1 (lines e1) sk (undoing e1))
+           else Ok e);
+  let '(sl, sp) := h_search_text e in
+  let preserve := negb (sp =? 0) in
+  if fwd && (hpos e <=? -1) then Ok (set_hist e (-1) (hcpos e))
+  else
+    let n := zlen (hist e) in
+    let start := if -1 <? hpos e then n - hpos e else if fwd then -1 else n in
+    (* cline[:cur.Pos()] cuts the UTF-8 string at a rune index *)
+    let cb := utf8_encode sl in
+    let cline := if sp <? zlen sl then firstn (Z.to_nat sp) cb else cb in
+    match match_go (S (S (length (hist e)))) (hist e) start fwd regex cline with
+    | None => if fwd then h_undo (set_hist e (-1) (hcpos e)) else Ok e
+    | Some (m, pos) =>
+      let e := set_line (set_hist e (n - pos) (hcpos e)) m in
+      Ok (if preserve then c_set e sp else c_set e (llen e))
+    end.
+
 (* ------------------------------------------------------------------ keymap.Engine pending *)
 
 Definition km_pending (e : ed) : ed :=
@@ -911,6 +989,13 @@ Definition run_command (name : list Z) (keys : list Z) (mem_kind : bool) (max_en
   else if is "vi-arg-digit"%string then Ok (it_add (h_skip_save e) keys)
   else if is "previous-history"%string then do e <- h_save e; h_walk mem_kind e 1
   else if is "next-history"%string then do e <- h_save e; h_walk mem_kind e (-1)
+  else if is "beginning-of-history"%string then h_walk mem_kind (h_skip_save e) (zlen (hist e))
+  else if is "end-of-history"%string then h_walk mem_kind e (- zlen (hist e) + 1)
+  else if is "history-search-backward"%string then do e <- h_save e; h_insert_match e false false
+  else if is "history-search-forward"%string then do e <- h_save e; h_insert_match e true false
+  else if is "accept-and-hold"%string then h_accept e true false 0 max_entries mem_kind
+  else if is "operate-and-get-next"%string then h_accept e false true 0 max_entries mem_kind
+  else if is "accept-and-infer-next-history"%string then h_accept e false true 0 max_entries mem_kind
   (* ---- vi *)
   else if is "vi-movement-mode"%string then vi_command_mode e
   else if is "vi-insertion-mode"%string then vi_insert_mode e
@@ -1033,6 +1118,8 @@ Definition modelled_commands : list (list Z) :=
           "backward-delete-char"; "kill-line"; "backward-kill-line"; "kill-whole-line"; "kill-word";
           "backward-kill-word"; "kill-region"; "copy-region-as-kill"; "set-mark"; "exchange-point-and-mark";
           "yank"; "undo"; "vi-undo"; "redo"; "digit-argument"; "vi-arg-digit"; "previous-history"; "next-history";
+          "beginning-of-history"; "end-of-history"; "history-search-backward"; "history-search-forward";
+          "accept-and-hold"; "operate-and-get-next"; "accept-and-infer-next-history";
           "vi-movement-mode"; "vi-insertion-mode"; "vi-append-mode"; "vi-forward-char"; "vi-backward-char";
           "vi-forward-word"; "vi-forward-bigword"; "vi-backward-bigword"; "vi-end-word"; "vi-end-bigword";
           "vi-first-print"; "vi-delete"; "vi-delete-to"; "vi-yank-to"; "vi-put-before"; "vi-visual-mode"]%string.
